@@ -84,14 +84,24 @@ func runC02(s *kernel.Sim) {
 	_ = cancel
 	contextmanager.Get().WithContext(ctx).WithClusterLiveness(live)
 
+	// a quarter of the runs without a parent: the quota's filter has a header condition.
+	// Requests carry the header; responses may carry a header of the same name with
+	// another value (a provider echoing or rewriting it) - the slot comes back all the same
+	hdrFilter := !withParent && tp.Chance(1, 4)
+	s.Knobs["quota_filter_has_a_header_condition"] = hdrFilter
 	var q strings.Builder
 	conc := func(id, url string, max int64, parent string) {
 		fmt.Fprintf(&q, "  - id: %s\n", id)
 		if parent != "" {
 			fmt.Fprintf(&q, "    parent_id: %s\n", parent)
 		}
-		fmt.Fprintf(&q, "    filter:\n      url: %s\n    strategy:\n      concurrent:\n        max_request_count: %d\n        request_expiration_sec: %d\n        gc_interval_sec: %d\n",
-			url, max, expS, gcS)
+		hf := ""
+		if hdrFilter && id == "qc" {
+			// the quota is for the calls of one tenant: its filter asks for a request header
+			hf = "      headers:\n        - key: x-t\n          value: a\n"
+		}
+		fmt.Fprintf(&q, "    filter:\n      url: %s\n%s    strategy:\n      concurrent:\n        max_request_count: %d\n        request_expiration_sec: %d\n        gc_interval_sec: %d\n",
+			url, hf, max, expS, gcS)
 	}
 	files := map[string]string{}
 	rate := func() {
@@ -286,6 +296,9 @@ func runC02(s *kernel.Sim) {
 		if early {
 			h["x-early"] = "1"
 		}
+		if hdrFilter {
+			h["x-t"] = "a"
+		}
 		s.Event("request", t.id, path(t.level))
 		if t.failReq {
 			failReqM[t.id] = true
@@ -330,7 +343,13 @@ func runC02(s *kernel.Sim) {
 		switch kind {
 		case 0:
 			s.Event("response", t.id)
-			r := env.doResponse(t.id, "GET", "a.com", path(t.level), 200, nil)
+			var rh map[string]string
+			if hdrFilter {
+				if v := []string{"", "a", "b", "a; v=2"}[tp.Choose(4)]; v != "" {
+					rh = map[string]string{"x-t": v}
+				}
+			}
+			r := env.doResponse(t.id, "GET", "a.com", path(t.level), 200, rh)
 			if r.Err != nil {
 				s.Violate("R2", "execute-error", "ExecuteFlow(response %s) returned an error: %v", t.id, r.Err)
 			}
